@@ -177,6 +177,7 @@ class BNCase:
         nbt = 0
         training = True
         nf = 0
+        recs = []
         for act in sp["history"]:
             if act == "t":
                 m.train()
@@ -192,6 +193,10 @@ class BNCase:
             xt = Tn(x, requires_grad=True)
             before = (snapshot(m.running_mean.data), snapshot(m.running_var.data)) if sp["track"] else None
             y = m(xt)
+            if sp.get("grads"):
+                recs.append((nf, shape, xt, y, env.arr("g%d" % nf, shape, lo=-2, hi=2)))
+                if sp["grads"] == "now":
+                    y.backward(Tn(recs[-1][4]))
             tag = "forward %d (%s)" % (nf, "train" if training else "eval")
             use_batch = training or not sp["track"]
             exp = objarr(shape)
@@ -229,6 +234,25 @@ class BNCase:
             else:
                 out.fact("no running statistics without tracking: " + tag, m.running_mean is None and m.running_var is None)
             nf += 1
+        if recs:
+            # one layer applied several times (in whatever modes the history switched to), every application differentiated:
+            # each input gets the VJP of *its* application - as computed at the time of that forward, whatever later forwards
+            # did to the running statistics - and the shared scale/shift accumulate over all of them
+            if sp["grads"] == "deferred":
+                for k, shp, xt, y, g in recs:
+                    y.backward(Tn(g))
+            from ..harness import elem_names
+            names = {}
+            inputs = []
+            for k, shp, xt, y, g in recs:
+                names["x%d" % k] = elem_names("x%d" % k, shp)
+                inputs.append(("x%d" % k, xt.data, gradof(xt), True))
+            if sp["affine"] and not sp.get("default"):
+                names["gamma"], names["beta"] = elem_names("gamma", (C,)), elem_names("beta", (C,))
+                inputs.append(("gamma", m.weight.data, gradof(m.weight), True))
+                inputs.append(("beta", m.bias.data, gradof(m.bias), True))
+            out.vjp = dict(outs=[y.data for _, _, _, y, _ in recs], gs=[g for _, _, _, _, g in recs], inputs=inputs)
+            out.notes["names"] = names
         return out
 
 
@@ -281,6 +305,15 @@ def enumerate_specs(tier):
                         specs.append({"kind": "bn", "shape": list(shape), "affine": affine, "track": track,
                                       "momentum": momentum, "history": h})
     specs.append({"kind": "bn", "shape": [2, 1, 1, 2], "affine": True, "track": True, "momentum": "s", "history": "fef"})
+    # every application of the one layer is differentiated, right away or only after the last forward
+    # (histories in which no eval forward follows a training forward: the running statistics an eval forward reads are then
+    # inputs of the scenario, not functions of an earlier batch - autograd rightly treats them as constants, a value-level
+    # oracle would not)
+    for h in ("ff", "eftf", "efetf", "eeftff") if tier != "quick" else ("eftf", "ff"):
+        for how in ("deferred", "now"):
+            for affine in (True, False):
+                specs.append({"kind": "bn", "shape": [2, 1], "affine": affine, "track": True, "momentum": "s", "history": h, "grads": how})
+    specs.append({"kind": "bn", "shape": [2, 1, 2], "affine": True, "track": False, "momentum": "s", "history": "fef", "grads": "deferred"})
     # one sample with a spatial extent: the per-channel count is L resp. H*W (> 1), the running variance still unbiased
     for shape, mom in (([1, 1, 2], "s"), ([1, 2, 3], None), ([1, 1, 1, 2], "s"), ([1, 1, 2, 2], 1.0)):
         specs.append({"kind": "bn", "shape": shape, "affine": False, "track": True, "momentum": mom, "history": "ff" if mom is None else "fef"})
